@@ -58,6 +58,7 @@ type FuncContract struct {
 	NoChan   bool // promises (and is checked) not to send/receive on any channel; otherwise callers lose all channel counters
 	Trusted  bool // contract assumed, body not verified
 	MayPanic bool
+	NoReturn bool // `noreturn`: the function never returns (ends in os.Exit): no reachable return is expected, the vacuity guard covers its calls instead
 	Extern   bool
 	Key      string // extern key, e.g. "(*sync.Mutex).Lock" or "time.Now"
 	File     string
@@ -130,7 +131,7 @@ var topKeywords = map[string]bool{"func": true, "extern": true, "pred": true, "g
 	"lemma": true, "axiom": true, "benign": true, "fn": true, "immutable": true, "constructors": true, "ghostgroup": true, "chaninv": true, "modset": true}
 var clauseKeywords = map[string]bool{"props": true, "arith": true, "requires": true, "ensures": true,
 	"modifies": true, "loop": true, "invariant": true, "decreases": true, "unroll": true, "trusted": true,
-	"maypanic": true, "guarantee": true, "guards": true, "ghostparam": true, "inst": true, "onreturn": true, "onspawn": true, "lockassume": true, "assume": true, "nochan": true, "keeps": true, "exit": true, "chans": true, "backedge": true}
+	"maypanic": true, "noreturn": true, "guarantee": true, "guards": true, "ghostparam": true, "inst": true, "onreturn": true, "onspawn": true, "lockassume": true, "assume": true, "nochan": true, "keeps": true, "exit": true, "chans": true, "backedge": true}
 
 type logicalLine struct {
 	kw   string
@@ -623,6 +624,8 @@ func (cs *Contracts) loadFile(path, pkgPath string) error {
 			curFunc.NoChan = true
 		case "maypanic":
 			curFunc.MayPanic = true
+		case "noreturn":
+			curFunc.NoReturn = true
 		case "requires", "ensures":
 			if curFunc == nil {
 				return fmt.Errorf("%s:%d: %s outside func", path, l.line, l.kw)
